@@ -268,6 +268,21 @@ fn w_roundtrip(ctx: &mut Ctx) {
                 if let Some(d) = settings_diff(&st2, &l2.settings) {
                     bad("settings_argument_not_used", d);
                 }
+                // ... and it must be what the solver was BUILT with: the settings consumed by the constructor
+                // (presolve, equilibration, backend) have to show in the loaded solver's internal data exactly as in
+                // a solver built from the user's problem with that settings argument
+                if !reduced {
+                    if let Ok(reference) = problem::new_solver(&p, &st2) {
+                        let (a, b) = (&l2.data, &reference.data);
+                        let close = |u: &[f64], v: &[f64]| u.len() == v.len() && u.iter().zip(v).all(|(x, y)| (x - y).abs() <= 1e-8 * x.abs().max(y.abs()));
+                        if a.m != b.m || a.n != b.n {
+                            bad("settings_argument_not_used_at_construction", json!({"what": "internal dimensions", "loaded": [a.n, a.m], "reference": [b.n, b.m]}));
+                        } else if !close(&a.equilibration.d, &b.equilibration.d) || !close(&a.equilibration.e, &b.equilibration.e) || !close(&[a.equilibration.c], &[b.equilibration.c]) {
+                            bad("settings_argument_not_used_at_construction", json!({"what": "equilibration", "loaded_c": a.equilibration.c, "reference_c": b.equilibration.c, "loaded_d": a.equilibration.d, "reference_d": b.equilibration.d}));
+                        }
+                        ctx.bump("load_time_settings_compared_with_a_reference_construction");
+                    }
+                }
             }
             Ok(Err(e)) => bad("load_failed_on_valid_file", json!({"error": e, "with_settings_argument": true})),
             Err(panic) => bad("load_panicked_on_valid_file", json!({"panic": panic, "with_settings_argument": true})),
